@@ -7,6 +7,7 @@ package qnet
 import (
 	"context"
 	"fmt"
+	"math"
 	"sync"
 	"time"
 
@@ -123,16 +124,38 @@ func (c *RpcClient) Call(node fatchoy.NodeID, req proto.Message) *RpcContext {
 	return rpc
 }
 
+// 生成下一个序列号：非0，并且没有被未完成的RPC占用；全部被占用时返回0
+func (c *RpcClient) nextSeq() uint16 {
+	var seq = c.counter
+	for i := 0; i < math.MaxUint16; i++ {
+		seq++
+		if seq == 0 {
+			seq++
+		}
+		if _, found := c.pendingCtx[seq]; !found {
+			c.counter = seq
+			return seq
+		}
+	}
+	return 0
+}
+
 func (c *RpcClient) makeCall(ctx *RpcContext) *RpcContext {
 	c.guard.Lock()
-	defer c.guard.Unlock()
-
 	ctx.deadline = time.Now().Add(time.Minute) // 1分钟ttl
-	c.counter++
-	if c.counter == 0 {
-		c.counter++
+	var seq = c.nextSeq()
+	if seq == 0 {
+		// 所有序列号都被未完成的RPC占用，直接以错误码结束本次调用
+		c.guard.Unlock()
+		var pkt = packet.Make()
+		pkt.SetType(fatchoy.PTypePacket)
+		pkt.SetErrno(int32(codes.ResourceExhausted))
+		if err := ctx.run(pkt); err != nil {
+			log.Errorf("rpc refused done: %v", err)
+		}
+		return ctx
 	}
-	var seq = c.counter
+	defer c.guard.Unlock()
 	c.pendingCtx[seq] = ctx
 
 	var reqMsgID = packet.GetMessageIDOf(ctx.req)
